@@ -104,7 +104,6 @@ func verif_C01_stream() {
 	verifObserve("stream", stream, got, ok, end)
 	if ok {
 		verifReach("C01.marker")
-		verifKnown("KF-C01-dotcr", true)
 		verifAssert(err == io.EOF, "C01.eof-at-marker")
 		verifAssert(bytes.Equal(got, body), "C01.body-exact")
 		consumed := src.pos - br.Buffered()
